@@ -567,6 +567,41 @@ func unusual(r *hx.Rng, codec byte, nalus [][]byte, hs []int) ([][]byte, string)
 	return nalus, "plain"
 }
 
+// benign: placements that keep the sample a valid NAL unit layout (used by the search, where every fragment must
+// encrypt): non-video NAL units after the last slice, tiny non-video NAL units, no video NAL unit at all.
+func benign(r *hx.Rng, codec byte, nalus [][]byte) [][]byte {
+	nonVideo := func(sz int) []byte {
+		b := r.Bytes(sz, nil)
+		if codec == 'a' {
+			b[0] = byte(r.Pick(6, 9, 10, 11, 12, 7, 8))
+		} else {
+			b[0] = byte(r.Pick(35, 36, 37, 38, 39, 40, 32)) << 1
+		}
+		return b
+	}
+	switch r.Intn(4) {
+	case 0, 1:
+		for k := r.Pick(1, 1, 2, 3); k > 0; k-- {
+			nalus = append(nalus, nonVideo(r.Pick(1, 2, 3, 5, 16, 17, 200)))
+		}
+	case 2:
+		k := r.Intn(len(nalus) + 1)
+		nalus = append(nalus[:k], append([][]byte{nonVideo(r.Pick(1, 2, 3))}, nalus[k:]...)...)
+	default:
+		var nv [][]byte
+		for _, n := range nalus {
+			if !isVideo(codec, n[0]) {
+				nv = append(nv, n)
+			}
+		}
+		if len(nv) == 0 {
+			nv = append(nv, nonVideo(r.Pick(1, 2, 3, 20)))
+		}
+		nalus = nv
+	}
+	return nalus
+}
+
 func obsRanges(ssps []mp4.SubSamplePattern, class string) string {
 	if class != "ok" {
 		return class
@@ -613,6 +648,7 @@ type fragOpts struct {
 	moofBefore bool // put an extra box BEFORE the traf
 	viaExtract bool // the InitProtectData comes from ExtractInitProtectData on the encoded+decoded protected init
 	optTrun    bool // Fragment.EncOptimize = OptimizeTrun (tfhd/trun are rewritten at encode time)
+	init       []byte // init segment to protect (nil: the test asset of the codec)
 }
 
 type fragResult struct {
@@ -700,7 +736,11 @@ func buildFragment(trackID uint32, samples [][]byte, o fragOpts, r *hx.Rng) *mp4
 // runFragment: InitProtect + EncryptFragment on a freshly built fragment; collects the observables.
 func (e *env) runFragment(codec byte, scheme string, key, iv []byte, samples [][]byte, o fragOpts, r *hx.Rng) fragResult {
 	res := fragResult{}
-	initF, err := mp4.DecodeFile(bytes.NewReader(e.initFor(codec)))
+	initBytes := o.init
+	if initBytes == nil {
+		initBytes = e.initFor(codec)
+	}
+	initF, err := mp4.DecodeFile(bytes.NewReader(initBytes))
 	must(err)
 	res.init = initF
 	kid, _ := mp4.NewUUIDFromString(kidHex)
@@ -1103,6 +1143,54 @@ func corr(e *env, seed uint64, n int, big int) {
 		emit("F", next(), scheme, string(codec), hx.Hex(k), hx.Hex(iv), strconv.Itoa(fr.cb), strconv.Itoa(fr.sb),
 			samplesField(samples), hs, orDash(fr.before), orDash(fr.trafc), fr.obs)
 	}
+	// --- G: EncryptFragment where the model builds the parameter-set maps from the avcC / hvcC NAL units and
+	//        computes every slice header size itself (no observed sizes): AVC asset, HEVC asset, synthetic HEVC
+	//        configurations; one sample in three fragments is made unusual (the fragment may then be refused)
+	for i := 0; i < nf; i++ {
+		scheme := []string{"cbcs", "cbcs", "cenc"}[r.Intn(3)]
+		ns := r.Pick(1, 2, 3, 5)
+		var samples [][]byte
+		var spsRaw, ppsRaw [][]byte
+		codec := byte('h')
+		o := fragOpts{extraMoof: r.Pick(0, 0, 1), extraTraf: r.Pick(0, 0, 1), moofBefore: r.Bool()}
+		var g *hevcEnv
+		switch i % 4 {
+		case 0:
+			codec = 'a'
+			spsRaw, ppsRaw = e.avcSpsRaw, e.avcPpsRaw
+		case 1:
+			spsRaw, ppsRaw = e.hevcSpsRaw, e.hevcPpsRaw
+		default:
+			g = e.gen[r.Intn(len(e.gen))]
+			spsRaw, ppsRaw = [][]byte{g.cfg.sps}, [][]byte{g.cfg.pps}
+			o.init = g.init
+		}
+		odd := -1
+		if r.Intn(3) == 0 {
+			odd = r.Intn(ns)
+		}
+		for j := 0; j < ns; j++ {
+			var nal [][]byte
+			var hs []int
+			switch {
+			case g != nil:
+				nal, hs = genHevcAccessUnit(g.cfg, r, false)
+			case scheme == "cbcs":
+				nal = genVideoSampleCbcs(e, r, codec, 0)
+			default:
+				nal = genVideoSampleCenc(r, codec, 0)
+			}
+			if j == odd {
+				nal, _ = unusual(r, codec, nal, hs)
+			}
+			samples = append(samples, frame(nal))
+		}
+		iv := genIV(r, r.Pick(8, 16))
+		k := key()
+		fr := e.runFragment(codec, scheme, k, iv, samples, o, r)
+		emit("G", next(), scheme, string(codec), hexCsv(spsRaw), hexCsv(ppsRaw), hx.Hex(k), hx.Hex(iv), strconv.Itoa(fr.cb), strconv.Itoa(fr.sb),
+			samplesField(samples), orDash(fr.before), orDash(fr.trafc), fr.obs)
+	}
 	out.Flush()
 }
 
@@ -1211,9 +1299,9 @@ func layout(nalus [][]byte) []naluInfo {
 }
 
 // expectedMask: the per-byte protected/clear classification the property prescribes.
-func (e *env) expectedMask(codec byte, scheme string, nalus [][]byte) ([]bool, bool) {
+func (e *env) expectedMask(codec byte, scheme string, nalus [][]byte, hs []int) ([]bool, bool) {
 	var m []bool
-	for _, n := range nalus {
+	for k, n := range nalus {
 		m = append(m, false, false, false, false)
 		p := 0
 		if isVideo(codec, n[0]) {
@@ -1222,7 +1310,14 @@ func (e *env) expectedMask(codec byte, scheme string, nalus [][]byte) ([]bool, b
 					p = ((len(n) + 4 - 96) / 16) * 16
 				}
 			} else {
-				h := e.hdrSize(codec, n)
+				h := "E"
+				if hs != nil { // header size known from the generator (independent of the parser under test)
+					if k < len(hs) && hs[k] > 0 {
+						h = strconv.Itoa(hs[k])
+					}
+				} else {
+					h = e.hdrSize(codec, n)
+				}
 				if h == "E" {
 					return nil, false
 				}
@@ -1276,11 +1371,23 @@ func search(e *env, seed uint64, n int, big int) {
 		}
 		var samples [][]byte
 		var naluLists [][][]byte
+		var hdrLists [][]int // per sample, per NAL unit: header size known from the generator (synthetic HEVC only)
+		var g *hevcEnv
+		if i%3 == 2 && codec != 'u' { // synthetic HEVC configuration: its own hvcC, header sizes from the writer
+			codec = 'h'
+			g = e.gen[r.Intn(len(e.gen))]
+			synthFrags++
+		}
 		for j := 0; j < ns; j++ {
 			switch {
 			case codec == 'u':
 				samples = append(samples, genAudioSample(r, b))
 				naluLists = append(naluLists, nil)
+			case g != nil:
+				nal, hs := genHevcAccessUnit(g.cfg, r, b > 0 && j == 0)
+				samples = append(samples, frame(nal))
+				naluLists = append(naluLists, nal)
+				hdrLists = append(hdrLists, hs)
 			case scheme == "cbcs":
 				nal := genVideoSampleCbcs(e, r, codec, b)
 				samples = append(samples, frame(nal))
@@ -1291,7 +1398,15 @@ func search(e *env, seed uint64, n int, big int) {
 				naluLists = append(naluLists, nal)
 			}
 		}
-		if codec != 'u' && scheme == "cenc" && i%25 == 7 {
+		if codec != 'u' && g == nil && i%2 == 0 {
+			// unusual but valid placements: non-video NAL units after the last slice, 1..3-byte non-video NAL
+			// units anywhere, a sample without any video NAL unit
+			j := r.Intn(ns)
+			naluLists[j] = benign(r, codec, naluLists[j])
+			samples[j] = frame(naluLists[j])
+			benignSamples++
+		}
+		if codec != 'u' && g == nil && scheme == "cenc" && i%25 == 7 {
 			// a sample with many protected NAL units: 38..45 sub-sample entries
 			k := r.Range(38, 45)
 			var nal [][]byte
@@ -1314,6 +1429,9 @@ func search(e *env, seed uint64, n int, big int) {
 			key = r.Bytes(r.Pick(24, 32), nil)
 		}
 		o := fragOpts{extraMoof: r.Pick(0, 0, 1, 2), extraTraf: r.Pick(0, 0, 1, 2), moofBefore: r.Bool(), optTrun: i%10 == 3, viaExtract: i%4 == 1}
+		if g != nil {
+			o.init = g.init
+		}
 		fr := e.runFragment(codec, scheme, key, ivIn, samples, o, r)
 		evals++
 		wit := fmt.Sprintf("codec=%c scheme=%s key=%s iv=%s opts=%+v samples=%s", codec, scheme, hx.Hex(key), hx.Hex(ivIn), o, samplesField(samples))
@@ -1331,29 +1449,37 @@ func search(e *env, seed uint64, n int, big int) {
 					switch {
 					case codec == 'u':
 						ps = append(ps, genAudioSample(r, 0))
+					case g != nil:
+						nal, _ := genHevcAccessUnit(g.cfg, r, false)
+						ps = append(ps, frame(nal))
 					case scheme == "cbcs":
 						ps = append(ps, frame(genVideoSampleCbcs(e, r, codec, 0)))
 					default:
 						ps = append(ps, frame(genVideoSampleCenc(r, codec, 0)))
 					}
 				}
-				pf := e.runFragment(codec, scheme, key, ivIn, ps, fragOpts{extraTraf: r.Pick(0, 1)}, r)
+				pf := e.runFragment(codec, scheme, key, ivIn, ps, fragOpts{extraTraf: r.Pick(0, 1), init: o.init}, r)
 				if pf.class == "ok" {
 					prefix = append(prefix, pf)
 					multiFrag++
 				}
 			}
 		}
-		checkFragment(e, fr, prefix, codec, scheme, key, ivIn, samples, naluLists, wit)
+		checkFragment(e, fr, prefix, codec, scheme, key, ivIn, samples, naluLists, hdrLists, wit)
 	}
 	fmt.Fprintf(out, "NOTE\tmulti_fragment_prefixes\t%d\n", multiFrag)
+	fmt.Fprintf(out, "NOTE\tsamples_with_shape_oracle\t%d\n", maskChecked)
+	fmt.Fprintf(out, "NOTE\tsynthetic_hevc_fragments\t%d\n", synthFrags)
+	fmt.Fprintf(out, "NOTE\tfragments_with_unusual_placement\t%d\n", benignSamples)
 	fmt.Fprintf(out, "NOTE\tiv_across_fragments\tEncryptFragment has no IV state across fragments: callers (cmd/mp4ff-encrypt) start every fragment from the same IV, so with one key counter blocks repeat ACROSS fragments; the property speaks about one fragment - not alarmed\n")
 	fmt.Fprintf(out, "EVALS\t%d\n", evals)
 	out.Flush()
 }
 
 // checkFragment evaluates the clauses of C07 on one encrypted fragment, after a full encode/decode cycle.
-func checkFragment(e *env, fr fragResult, prefix []fragResult, codec byte, scheme string, key, ivIn []byte, samples [][]byte, naluLists [][][]byte, wit string) {
+var maskChecked, synthFrags, benignSamples int
+
+func checkFragment(e *env, fr fragResult, prefix []fragResult, codec byte, scheme string, key, ivIn []byte, samples [][]byte, naluLists [][][]byte, hdrLists [][]int, wit string) {
 	// encode init + fragment, decode again: the observation point is the encoded file
 	seg := mp4.NewMediaSegmentWithoutStyp()
 	seg.EncOptimize = fr.frag.EncOptimize // MediaSegment.Encode copies its own mode into every fragment
@@ -1509,7 +1635,14 @@ func checkFragment(e *env, fr fragResult, prefix []fragResult, codec byte, schem
 				continue
 			}
 			mask = maskOf(ssps, len(clear))
-			want, ok := e.expectedMask(codec, scheme, naluLists[i])
+			var hsI []int
+			if hdrLists != nil {
+				hsI = hdrLists[i]
+			}
+			want, ok := e.expectedMask(codec, scheme, naluLists[i], hsI)
+			if ok {
+				maskChecked++
+			}
 			if ok {
 				for j := range mask {
 					if mask[j] != want[j] {
